@@ -36,3 +36,78 @@ CHECKS["C20"] = {
          "functions": ["climate::solar::nday_from_md"]},
     ],
 }
+
+FS = ["--max-field-sensitivity-array-size", "256"]  # heap objects up to 256 bytes stay field-sensitive (constant propagation through Vec/Box)
+
+CHECKS["C13"] = {
+    "title": "ray casting: accelerated = exhaustive; exact geometry",
+    "outside": [
+        "BVH::build when the element count exceeds max_num_elements (the split path: generate_node_list / partition_elements_by_centroid / multi-level build_from_node_list): symbolic execution of 2 elements with max=1 did not finish in 500 s even with concrete boxes; termination for coinciding centres is therefore NOT decided",
+        "polygons with more than 3 corners through point_in_poly; poses with non-zero tilt/azimuth (sin/cos are not interpreted by CBMC)",
+        "off-grid coordinates; rays whose origin lies exactly on a slab face with a zero direction component (0*inf = NaN)",
+    ],
+    "harnesses": [
+        {"name": "c13::bvh_leaf0", "bound": "empty obstacle set, ray origin on integer grid [-6,6]^3, direction components in {-1,-1/2,0,1/2,1}", "kani_args": NOOVF, "cbmc_args": FS,
+         "functions": ["BVH::build", "BVH::generate_node_list", "BVH::build_from_node_list", "BVH::intersects", "PreorderIter::next"]},
+        {"name": "c13::bvh_leaf1", "bound": "1 box with integer corners (min in [-4,4]^3, size 1..2), ray as above; max_num_elements=30 (single leaf)", "kani_args": NOOVF, "cbmc_args": FS,
+         "timeout_quick": 900, "functions": ["BVH::build", "BVH::intersects", "AABB::intersects", "<[T] as Bounded>::aabb", "PreorderIter::next"]},
+        {"name": "c13::bvh_leaf2", "tier": "thorough", "bound": "2 boxes, same grids, single leaf", "kani_args": NOOVF, "cbmc_args": FS,
+         "functions": ["BVH::build", "BVH::intersects", "AABB::intersects", "AABB::join", "PreorderIter::next"]},
+        {"name": "c13::geo::aabb_slab", "bound": "box corners integers in [-4,7], origin integers in [-6,6]^3, doubled direction in {-2..2}^3 minus 0", "kani_args": NOOVF,
+         "functions": ["AABB::intersects"]},
+        {"name": "c13::geo::aabb_join_monotone", "bound": "2 grid boxes, grid ray", "kani_args": NOOVF, "cbmc_args": FS,
+         "functions": ["AABB::intersects", "AABB::join", "<[T] as Bounded>::aabb"]},
+        {"name": "c13::geo::aabb_join_bounds", "bound": "0..3 boxes, every finite f32 corner", "kani_args": NOOVF, "cbmc_args": FS,
+         "functions": ["AABB::join", "<[T] as Bounded>::aabb"]},
+        {"name": "c13::geo::pip_exact_tri", "bound": "triangles (both windings) with integer vertices in [-4,4]^2, points at half-integers", "kani_args": NOOVF, "cbmc_args": FS,
+         "timeout_quick": 900, "functions": ["ray::point_in_poly", "Ray::intersects_with_data"]},
+        {"name": "c13::geo::ray_plane", "bound": "rectangle w,h in 1..4, translation in [-3,3]^3, both vertex orders, origin in [-6,6]^3, direction in {-2..2}^2 x {-2,-1,0,1,2}", "kani_args": NOOVF, "cbmc_args": FS,
+         "timeout_quick": 900, "functions": ["Ray::intersects_with_data", "ray::point_in_poly", "Polygon::normal"]},
+    ],
+}
+
+FMT = ["alloc::fmt::format -> empty String (message texts are outside the claim)"]
+GRIDK = "U and areas on the integer grid {0..3}, multipliers {1,2}, bridge length and psi in {-1..2}; reference in i32"
+
+CHECKS["C08"] = {
+    "title": "K is the area-weighted mean transmittance of the thermal envelope",
+    "outside": ["more than 2 walls / 2 windows / 2 bridges", "off-grid values except in k_default_u (mirror form)", "net areas themselves (Wall::area_net is decided under C11)"],
+    "harnesses": [
+        {"name": "c08::k_formula_111", "bound": "1 wall + 1 window + 1 bridge; " + GRIDK, "kani_args": NOOVF, "cbmc_args": FS, "stubs": FMT,
+         "functions": ["KData::from(&EnergyProps)"]},
+        {"name": "c08::k_default_u", "bound": "1 wall + 1 window, areas in {0..7}, U in {k/4, k<=15}, multiplier {1,2}, presence of computed/override symbolic (mirror form: 5.7 is not dyadic)", "kani_args": NOOVF, "cbmc_args": FS, "stubs": FMT,
+         "functions": ["KData::from(&EnergyProps)"]},
+        {"name": "c08::k_formula_211", "tier": "thorough", "bound": "2 walls + 1 window + 1 bridge; " + GRIDK, "kani_args": NOOVF, "cbmc_args": FS, "stubs": FMT,
+         "functions": ["KData::from(&EnergyProps)"]},
+        {"name": "c08::k_permutation", "tier": "thorough", "bound": "2 walls + 1 window under two id assignments; " + GRIDK, "kani_args": NOOVF, "cbmc_args": FS, "stubs": FMT,
+         "functions": ["KData::from(&EnergyProps)"]},
+        {"name": "c08::k_formula_222", "tier": "thorough", "bound": "2 walls + 2 windows + 2 bridges; " + GRIDK, "kani_args": NOOVF, "cbmc_args": FS, "stubs": FMT,
+         "functions": ["KData::from(&EnergyProps)"]},
+    ],
+}
+
+CHECKS["C09"] = {
+    "title": "n50 follows the DB-HE air-permeability formula",
+    "outside": ["more than 2 walls / 2 windows", "off-grid values (0.629 enters in mirror form only)"],
+    "harnesses": [
+        {"name": "c09::n50_11", "bound": "1 wall + 1 window + optional construction; areas, C_h, V on {0..3}, C_o in {16,29}, test value on {0..3} or absent", "kani_args": NOOVF, "cbmc_args": FS, "stubs": FMT,
+         "functions": ["N50Data::from(&EnergyProps)"]},
+        {"name": "c09::n50_22", "tier": "thorough", "bound": "2 walls + 2 windows, same grids", "kani_args": NOOVF, "cbmc_args": FS, "stubs": FMT,
+         "functions": ["N50Data::from(&EnergyProps)"]},
+    ],
+}
+
+UW10 = [[r"c10::(any_table|qsol_case|finite_detail|qsol_finite)", 10], [r"kani_models::HashMap.*::pos", 10]]
+
+CHECKS["C10"] = {
+    "title": "q_sol;jul follows the DB-HE solar-control formula",
+    "outside": ["contents of the embedded July table (an arbitrary non-negative 9-entry table is the input)", "more than 2 windows"],
+    "harnesses": [
+        {"name": "c10::qsol_1", "unwindset": UW10, "bound": "1 window: any of the 9 orientation classes, area {0..3}, multiplier {1,2}, F in {0,1/2,1} (override/computed/absent), g in {k/4}, Ff in {0,1/4,1/2,3/4}, construction present/absent (0.77/0.20 defaults in mirror form), A_ref in {1,2,8}, table = 9 distinct constants", "kani_args": NOOVF, "cbmc_args": FS, "stubs": FMT,
+         "functions": ["QSolJulData::from(&EnergyProps, &HashMap)"]},
+        {"name": "c10::qsol_finite", "unwindset": UW10, "bound": "0 or 1 window, A_ref in {0,2,8}, same grids", "kani_args": NOOVF, "cbmc_args": FS, "stubs": FMT,
+         "functions": ["QSolJulData::from(&EnergyProps, &HashMap)"]},
+        {"name": "c10::qsol_2", "unwindset": UW10, "tier": "thorough", "bound": "2 windows", "kani_args": NOOVF, "cbmc_args": FS, "stubs": FMT,
+         "functions": ["QSolJulData::from(&EnergyProps, &HashMap)"]},
+    ],
+}
